@@ -9,6 +9,7 @@ From CF Require Import C15.Proofs_pose.
 From CF Require Import C15.Gen_Formulas.
 From CF Require Import C15.GenTie.
 From CF Require Import C15.Proofs_code.
+From CF Require Import C15.Heap.
 Import ListNotations.
 Open Scope R_scope.
 
@@ -56,3 +57,22 @@ Theorem C15_scipy_hypothesis_transport :
                                gen_spec_quat_mat_8] = mat_list (quat_mat u)).
 Proof. exact spec_transport. Qed.
 Print Assumptions C15_scipy_hypothesis_transport.
+
+(* ---- growth round: Pose.scale / matrix_vec / from_rot_vec / from_quat (+ defaults), the solver's _params_to_pose
+        and _poses_to_angle_pairs, the LighthouseBsVectors list helpers, and the transport of quat_to_rotvec *)
+Theorem C15_code_matches_model_2 : code_matches_model_2.
+Proof. exact code_matches_model_2_holds. Qed.
+Print Assumptions C15_code_matches_model_2.
+
+(* both projection paths exactly as the solver uses them (_poses_to_angle_pairs  vs  _params_to_pose + Pose +
+   from_cart), on the translated trees, for every parameter row *)
+Theorem C15_code_params_paths_agree : forall bs_r bs_t cf_r cf_t s,
+  ev (vec_list bs_r ++ vec_list bs_t ++ vec_list cf_r ++ vec_list cf_t ++ vec_list s)
+     [gen_solver_poses_to_angle_pairs_0; gen_solver_poses_to_angle_pairs_1]
+  = ev (ev (ev (vec_list bs_r ++ vec_list bs_t) gen_solver_params_to_pose ++
+            ev (ev (vec_list cf_r ++ vec_list cf_t) gen_solver_params_to_pose ++ vec_list s)
+               [gen_pose_rotate_translate_0; gen_pose_rotate_translate_1; gen_pose_rotate_translate_2])
+           [gen_pose_inv_rotate_translate_0; gen_pose_inv_rotate_translate_1; gen_pose_inv_rotate_translate_2])
+       [gen_from_cart_0; gen_from_cart_1].
+Proof. exact code_params_paths_agree. Qed.
+Print Assumptions C15_code_params_paths_agree.
